@@ -300,6 +300,19 @@ pub fn vec_znx_rsh<R, A, ZNXARI, const OVERWRITE: bool>(
         ZNXARI::znx_zero(carry);
     }
 
+    // If a is moved entirely below res, the carry of a[0] sits `gap` limbs below the
+    // last limb of res: bring it up by normalizing `gap` (virtual) zero limbs. After
+    // ceil(64 / base2k) + 1 steps the carry has reached a fixed point of the step.
+    let gap: usize = steps.saturating_sub(res_size);
+    if gap != 0 {
+        let n: usize = res.n();
+        let (carry, zero) = carry[..2 * n].split_at_mut(n);
+        ZNXARI::znx_zero(zero);
+        for _ in 0..gap.min((i64::BITS as usize).div_ceil(base2k) + 1) {
+            ZNXARI::znx_normalize_middle_step_carry_only(base2k, lsh, zero, carry);
+        }
+    }
+
     if OVERWRITE {
         // Zeroes lower limbs of res if a_size + steps < res_size
         for j in 0..res_size {
@@ -384,6 +397,19 @@ where
 
     if a_out_range == 0 {
         ZNXARI::znx_zero(carry);
+    }
+
+    // If a is moved entirely below res, the carry of a[0] sits `gap` limbs below the
+    // last limb of res: bring it up by normalizing `gap` (virtual) zero limbs. After
+    // ceil(64 / base2k) + 1 steps the carry has reached a fixed point of the step.
+    let gap: usize = steps.saturating_sub(res_size);
+    if gap != 0 {
+        let n: usize = res.n();
+        let (carry, zero) = carry[..2 * n].split_at_mut(n);
+        ZNXARI::znx_zero(zero);
+        for _ in 0..gap.min((i64::BITS as usize).div_ceil(base2k) + 1) {
+            ZNXARI::znx_normalize_middle_step_carry_only(base2k, lsh, zero, carry);
+        }
     }
 
     let mid_range: usize = res_start.saturating_sub(res_end);
